@@ -20,6 +20,14 @@ FORCE = None
 PID = "C04"
 
 
+def _nan_best(ctx):
+    """an objective with NaN holes: NaN is a legal value, ordered as worst — the reported best is the best of what is
+    kept (what the engines keep under NaN values is their business: NumPy sorts NaN last, whatever the direction)"""
+    sl = runs.nan_monitor_batch(ctx, PID, ctx.size(30, 300), salt=71)
+    sl.violations = [v for v in sl.violations if v["signature"] in ("C04/tree-best-not-best", "C04/deme-best-not-best", "C04/tree-best-not-member", "C04/run-did-not-terminate")]
+    return sl
+
+
 def run(ctx):
     return [
         refine.refine_batch(ctx, ctx.size(120, 1500), force=FORCE, pid=PID, name="trace-refinement(Tree.step vs DemeTree.run)"),
@@ -32,6 +40,7 @@ def run(ctx):
         # cached problems (FunctionProblem(use_cache=True)), one objective per level, many trees per process: the
         # reported best must be a value the level's own objective returned
         runs.monitor_batch(ctx, PID, ctx.size(40, 400), salt=65, name="traced-runs-monitor-C04(cached problems, one objective per level)", force=_cached),
+        _nan_best(ctx),
     ]
 
 
